@@ -31,6 +31,9 @@ func VerifNewSM(namespace string) *VerifSM {
 
 func (v *VerifSM) Close() { _ = v.s.Close() }
 
+// Impl is the shard manager itself (for a client built over it).
+func (v *VerifSM) Impl() ShardManager { return v.s }
+
 // VerifReceive = one iteration of the loop in shardManagerImpl.receive. found=false is the
 // "namespace not found in shards assignments" error path (no update applied).
 func (v *VerifSM) VerifReceive(response *proto.ShardAssignments) (found bool) {
